@@ -454,6 +454,39 @@ def wrapped_doc(r):
     return "\n".join(out)
 
 
+DIRECTIVE_TYPES = ["note", "tip", "warning", "attention", "caution", "danger", "error", "hint", "important", "image", "figure", "toc", "include", "unknown", "Note", "admonition"]
+OPTION_NAMES = ["class", "name", "alt", "width", "height", "align", "target", "figclass", "figwidth", "min-level", "max-level", "collapse", "encoding", "title", "text", "renderer",
+                "type", "id", "style", "x", "CLASS", "raw", "children", "attrs"]
+OPTION_VALUES = ["", "c1", "c1 c2", "left", "center", "right", "LEFT", "100", "050", "100px", "50%", "10\u00b2", "\uff11\uff10\uff10", "\u0661\u0660", "\u2460", "1e3", "-1", "0", "1", "2", "3", "6", "7", "1.5",
+                 "9" * 40, "utf-8", "a.png", "/t", "javascript:x", "two words", "x\"y", "<b>", "&amp;", "tip", "note", " ", "\u3000", "\x0b"]
+
+
+def directive_doc(r, style=None, values=None):
+    """one to three directives of any type (admonitions, image, figure, toc, include, unknown) in the fenced, colon-fenced or RST
+    style, each with a random title, 0-4 options of any name (known to that directive, known to another one, unknown, names the
+    library uses itself) in any order with values of every kind (valid, empty, wrong type, digits of other scripts, very long,
+    markup), and a body of random blocks"""
+    style = style or r.choice(["fenced", "colon", "rst"])
+    out = []
+    for _ in range(r.randint(1, 3)):
+        ty = r.choice(DIRECTIVE_TYPES)
+        title = r.choice(["", "", "T", "Title *x*", "a.png", "/i/p.png", words(r, 1, 3)])
+        opts = [(r.choice(OPTION_NAMES), r.choice(values or OPTION_VALUES)) for _ in range(r.choice([0, 1, 1, 2, 3, 4]))]
+        body = r.choice(["", "", words(r) + "\n", "body *text*\n\nsecond\n", "- item\n- two\n", "> q\n", "caption\n\nlegend\n"])
+        if style == "rst":
+            d = ".. %s::%s\n" % (ty, (" " + title) if title else "") + "".join("   :%s:%s\n" % (k, (" " + v) if v else "") for k, v in opts)
+            if body:
+                d += "\n" + "".join(("   " + l + "\n") if l else "\n" for l in body.split("\n")[:-1])
+        else:
+            f = {"fenced": r.choice(["```", "~~~", "````"]), "colon": r.choice([":::", "::::"])}[style]
+            d = "%s{%s}%s\n" % (f, ty, (" " + title) if title else "") + "".join(":%s:%s\n" % (k, (" " + v) if v else "") for k, v in opts)
+            d += ("\n" + body if (body and opts) else body) + f + "\n"
+        out.append(d)
+        if r.random() < 0.4:
+            out.append(r.choice(["# h\n", words(r) + "\n", "## sub *e*\n"]))
+    return "\n".join(out)
+
+
 def long_run_doc(r):
     """one construct whose repeatable part is repeated 9 / 17 / 33 / 65 / 129 times (just beyond small powers of two): lines of a
     paragraph, term lines above a definition, definitions below a term, rows and columns of a table, items of a list, lines of a
